@@ -198,7 +198,7 @@ def main(tier, seed):
 
 
 class AtArr(np.ndarray):
-    """object ndarray with jax's functional `.at[idx].set(v)` (the only array API model_update uses)"""
+    """object ndarray with jax's functional `.at[idx].set(v)` (plus .add / .multiply / .get)"""
 
     def __new__(cls, arr):
         return np.asarray(arr, dtype=object).view(cls)
@@ -220,6 +220,15 @@ class AtArr(np.ndarray):
                         else:
                             np.ndarray.__setitem__(new, idx, v)
                         return new
+
+                    def add(self__, v):
+                        return self__.set(np.ndarray.__getitem__(outer, idx) + v)
+
+                    def multiply(self__, v):
+                        return self__.set(np.ndarray.__getitem__(outer, idx) * v)
+
+                    def get(self__):
+                        return np.ndarray.__getitem__(outer, idx)
                 return _Set()
         return _At()
 
@@ -314,7 +323,8 @@ def _dynaq_train_model(rep, tier, seed):
                 self.obs = 0
 
             def reset(self, seed=None):
-                self.obs = int(sym_int(f"reset{self.k}", 0, nS - 1))
+                # thorough (K = 4): concrete reset state, otherwise 16^4 paths; every (s, a) is still reached through the symbolic successors
+                self.obs = int(sym_int(f"reset{self.k}", 0, nS - 1)) if K <= 3 else 0
                 return self.obs, {}
 
             def step(self, act):
@@ -357,7 +367,7 @@ def _dynaq_train_model(rep, tier, seed):
                                     tot = tot + r0
                             ctx.check(model.reward[s, a, n] * cnt == tot, "dynaq-train:model-reward=mean-of-observed-rewards")
     e2.run("dynaq.train_dynaq[model]", prog, fn="rl_blox.algorithm.dynaq.train_dynaq/counter_update/model_update", site_of=lambda label: f"dynaq.train_dynaq:{label}")
-    rep.bounds["dynaq_train_model"] = f"real train_dynaq loop, {nS} states x {nA} actions, {K} steps, symbolic action / successor / reward / termination per step"
+    rep.bounds["dynaq_train_model"] = f"real train_dynaq loop, {nS} states x {nA} actions, {K} steps, symbolic action / successor / reward / termination per step" + (", symbolic reset state" if K <= 3 else ", reset state 0")
 
 
 def replay(path):
